@@ -42,3 +42,17 @@ package ecs
 //@   requires uint64(e.id) < uint64(len(p.entities)) && poolInv(p)
 //@   ensures  value: result == alive(p, e)
 //@   modifies nothing
+
+// Relation matching of a table against a list of (component, target) pairs: every listed
+// relation must have exactly that target, generation included.
+
+//@ spec func tableTargetsMatch(t *table, relations []relationID) bool :=
+//@   forall k int :: 0 <= k && k < len(relations) ==> relations[k].target == t.components[relations[k].component.id].target
+
+//@ func (*table).Matches
+//@   serves C03 C05 C06
+//@   requires len(t.components) == maskTotalBits
+//@   requires forall k int :: 0 <= k && k < len(relations) && len(t.relationIDs) > 0 ==> t.components[relations[k].component.id] != nil
+//@   loop 1 invariant prefix: forall k int :: 0 <= k && k < __idx ==> relations[k].target == t.components[relations[k].component.id].target
+//@   ensures  spec: result == (len(relations) == 0 || len(t.relationIDs) == 0 || tableTargetsMatch(t, relations))
+//@   modifies nothing
